@@ -3,7 +3,7 @@
  *
  * Build parameters (jobs.py):  CURVE (table id, see gen_curve.py), CV_M (curve->m: 8, or 16 = two-byte field
  * elements for the same small prime), plus liblcb's own configuration macros (EC_USE_PROJECTIVE, ...).
- * Fixed here: BN_DIGIT_BIT_CNT = 8, BN_BIT_LEN = 64, EC_PF_FXP_MULT_PRECALC_DBL_SIZE = CV_M.
+ * Fixed here: BN_DIGIT_BIT_CNT = 8, BN_BIT_LEN = 2 * CV_M + 24, EC_PF_FXP_MULT_PRECALC_DBL_SIZE = CV_M.
  *
  * The curve object is produced by liblcb's real constructor ecdsa_curve_from_str() from hex strings emitted by
  * the generator, so the base-point precomputation (G_fpx_mult_data) is the library's own.
@@ -19,11 +19,11 @@
 #ifndef BN_DIGIT_BIT_CNT
 #define BN_DIGIT_BIT_CNT	8
 #endif
-#ifndef BN_BIT_LEN
-#define BN_BIT_LEN		64
-#endif
 #ifndef CV_M
 #define CV_M			8
+#endif
+#ifndef BN_BIT_LEN			/* largest temporary of the EC layer: 2 * m + 3 digits (ec_point_proj_dbl_n) */
+#define BN_BIT_LEN		((2 * CV_M) + 24)
 #endif
 #ifndef EC_PF_FXP_MULT_PRECALC_DBL_SIZE
 #define EC_PF_FXP_MULT_PRECALC_DBL_SIZE	CV_M
@@ -34,9 +34,10 @@
 /* libc memcpy with a symbolic length (bn_assign copies `digits` digits) is modelled by CBMC as a byte-array
  * update of symbolic extent, which dominated the formula; a bignum here has at most BN_BIT_LEN / 8 = 8 bytes,
  * so memcpy is replaced by the obvious bounded byte loop (environment stub; the bound is checked). */
+static int env_bad;
 static inline void *
 v_memcpy(void *dst, const void *src, size_t n) {
-	V_ASSERT(n <= (BN_BIT_LEN / 8), "env: memcpy of at most one bignum");
+	if (n > (BN_BIT_LEN / 8)) env_bad = 1;
 	for (size_t i = 0; i < (BN_BIT_LEN / 8); i ++) {
 		if (i < n)
 			((uint8_t *)dst)[i] = ((const uint8_t *)src)[i];
@@ -139,5 +140,8 @@ env_index_of(uint32_t x, uint32_t y) {
 		return ((CV_NTOT - i));
 	return (0);
 }
+
+/* every harness ends with this */
+#define ENV_FINAL()	do { SB_FINAL(); V_ASSERT(0 == env_bad, "memcpy never copies more than one bignum"); } while (0)
 
 #endif /* EC_ENV_H */
